@@ -35,6 +35,7 @@ def run(ctx):
     ctx.assumptions += [
         "the order of TopN entries with equal counts, and which of them survives a cut-off n, is free",
         "row attributes of bool fields cannot be addressed through PQL and are not generated",
+        "Store() does not translate row keys and is generated for fields without keys only",
         "keys on int fields are not generated; the internal existence field's options are not part of the reported schema",
         "Field.Value is read only for columns of shards that hold data (the call itself opens a fragment)",
         "cacheSize of a field created with cache type none is compared before/after the restart only",
@@ -57,14 +58,17 @@ def run(ctx):
         go("C08_w1_int", mode="bfs", timeout=1200)
         for f, n in [("set", 16), ("mutex", 16), ("time", 16), ("bool", 4)]:
             go("C08_w1_" + f, mode="simulate", num=n, depth=2, timeout=900)
+        go("C08_snap", mode="simulate", num=150, depth=4, timeout=900)
         go("C08_sim_int", mode="simulate", num=80, depth=6, timeout=900)
         go("C08_sim_rest", mode="simulate", num=80, depth=7, timeout=900)
         go("C08_sim_time", mode="simulate", num=80, depth=7, timeout=900)
     else:
         # a seed-chosen third of the single-write runs: simulation at depth 2 with
         # Sample = FALSE emits every write of the alphabet on `num` seeded configurations
-        for f in [["int", "set"], ["time", "bool"], ["mutex", "int"]][ctx.seed % 3]:
-            go("C08_w1_" + f, mode="simulate", num=3, depth=2, timeout=600)
+        go("C08_w1_" + ["int", "set", "time", "mutex", "int", "bool"][ctx.seed % 6], mode="simulate", num=3, depth=2, timeout=600)
+        # rows written, then Store / ClearRow / a snapshotting Set as the last write before the
+        # restart (simulation at depth 4 emits every such last write for `num` seeded prefixes)
+        go("C08_snap", mode="simulate", num=20, depth=4, timeout=600)
         go("C08_sim_int", mode="simulate", num=30, depth=6, timeout=600)
         go("C08_sim_rest" if ctx.seed % 2 == 0 else "C08_sim_time", mode="simulate", num=25, depth=7, timeout=600)
     ctx.exhaustive = False
